@@ -55,6 +55,11 @@ impl FromFuzz for crate::types::CowF {
         Some(std::borrow::Cow::Owned(b.chunks(4).take(16).map(|c| f32::from_fuzz(c).unwrap()).collect()))
     }
 }
+impl FromFuzz for Vec<u8> {
+    fn from_fuzz(b: &[u8]) -> Option<Self> {
+        Some(b.iter().copied().take(64).collect())
+    }
+}
 impl FromFuzz for Point {
     fn from_fuzz(b: &[u8]) -> Option<Self> {
         Some(Point { x: i16::from_fuzz(b).unwrap(), y: i16::from_fuzz(b.get(2..).unwrap_or(&[])).unwrap() })
